@@ -1,7 +1,8 @@
 // C13: ADDED to package core/discov/internal at test-build time (go test -overlay; never
 // written under /repo).  A small, honest in-memory etcd that implements the package's own
 // EtcdClient interface: one key space, revisions (1 = empty store), a mutation history,
-// compaction, watch streams that replay history from the requested revision, and faults
+// compaction, watch streams that replay history from the requested revision (a stream that is
+// behind is caught up in batches whose header revision is the current one), and faults
 // injected by the executor (stream closed / cancelled, lagging stream + compaction, Get
 // errors, a stale Get).  The real cluster code (Registry.Monitor -> monitor -> load ->
 // watch -> watchStream -> setupWatch, reload, Unmonitor) decides what to ask of it.
@@ -53,6 +54,9 @@ type VerifLogEntry struct {
 	K   string      `json:"k,omitempty"`
 	V   string      `json:"v,omitempty"`
 	Ep  int         `json:"ep,omitempty"`
+	// More: (resp) a partial catch-up batch - events of the stream with revisions <= Rev (the
+	// header revision) are still to come
+	More bool `json:"more,omitempty"`
 }
 
 // VerifEtcd is the fake.
@@ -63,6 +67,7 @@ type VerifEtcd struct {
 	compact int64
 	base    int64
 	paused  bool
+	batch   int // catch-up batch size (0: the whole backlog in one response)
 	getErrs int
 	tagErrs map[string]int
 
@@ -361,7 +366,19 @@ func (st *verifStream) live() bool { return !st.closed && st.ctx.Err() == nil }
 
 // pump delivers the backlog of a stream (e.mu held).
 func (e *VerifEtcd) pump(st *verifStream) {
-	if !st.live() || e.paused {
+	if e.paused {
+		return
+	}
+	e.deliver(st, -1)
+}
+
+// deliver sends the stream at most max responses (max < 0: its whole backlog).  Like etcd's
+// mvcc store (watchable_store.go, syncWatchers) it catches a watcher that is behind up in
+// BATCHES of at most e.batch events and stamps every batch with the CURRENT store revision:
+// the header revision of a partial batch is ahead of the last event it carries, the events in
+// between are still to come.  A stream error may follow any batch.
+func (e *VerifEtcd) deliver(st *verifStream, max int) {
+	if !st.live() {
 		return
 	}
 	if st.next < e.compact {
@@ -372,25 +389,41 @@ func (e *VerifEtcd) pump(st *verifStream) {
 		st.closed = true
 		return
 	}
-	var evs []*clientv3.Event
-	lev := [][4]string{}
+	var pend []verifMut
 	for _, mu := range e.hist {
 		if mu.rev < st.next || !verifInRange(mu.key, st.key, st.end) {
 			continue
 		}
-		if mu.del {
-			evs = append(evs, &clientv3.Event{Type: clientv3.EventTypeDelete,
-				Kv: &mvccpb.KeyValue{Key: []byte(mu.key), ModRevision: mu.rev}})
-			lev = append(lev, [4]string{fmt.Sprint(mu.rev), "del", mu.key, ""})
-		} else {
-			evs = append(evs, &clientv3.Event{Type: clientv3.EventTypePut,
-				Kv: &mvccpb.KeyValue{Key: []byte(mu.key), Value: []byte(mu.val), ModRevision: mu.rev}})
-			lev = append(lev, [4]string{fmt.Sprint(mu.rev), "put", mu.key, mu.val})
-		}
+		pend = append(pend, mu)
 	}
-	st.next = e.rev + 1
-	if len(evs) > 0 {
-		e.logf(VerifLogEntry{W: st.tag, T: "resp", Rev: e.rev, Evs: lev})
+	if len(pend) == 0 {
+		st.next = e.rev + 1
+		return
+	}
+	for n := 0; len(pend) > 0 && (max < 0 || n < max); n++ {
+		k := len(pend)
+		if e.batch > 0 && e.batch < k {
+			k = e.batch
+		}
+		var evs []*clientv3.Event
+		lev := [][4]string{}
+		for _, mu := range pend[:k] {
+			if mu.del {
+				evs = append(evs, &clientv3.Event{Type: clientv3.EventTypeDelete,
+					Kv: &mvccpb.KeyValue{Key: []byte(mu.key), ModRevision: mu.rev}})
+				lev = append(lev, [4]string{fmt.Sprint(mu.rev), "del", mu.key, ""})
+			} else {
+				evs = append(evs, &clientv3.Event{Type: clientv3.EventTypePut,
+					Kv: &mvccpb.KeyValue{Key: []byte(mu.key), Value: []byte(mu.val), ModRevision: mu.rev}})
+				lev = append(lev, [4]string{fmt.Sprint(mu.rev), "put", mu.key, mu.val})
+			}
+		}
+		st.next = pend[k-1].rev + 1
+		pend = pend[k:]
+		if len(pend) == 0 {
+			st.next = e.rev + 1
+		}
+		e.logf(VerifLogEntry{W: st.tag, T: "resp", Rev: e.rev, Evs: lev, More: len(pend) > 0})
 		st.ch <- clientv3.WatchResponse{Header: etcdserverpb.ResponseHeader{Revision: e.rev}, Events: evs}
 	}
 }
@@ -431,13 +464,32 @@ func (e *VerifEtcd) VPause() {
 	e.mu.Unlock()
 }
 
-// VResume delivers the backlog (one response per stream), or the compaction error when the
-// backlog has been compacted away.
+// VResume delivers the backlog (one response per stream, or batches of VBatch events), or the
+// compaction error when the backlog has been compacted away.
 func (e *VerifEtcd) VResume() {
 	e.mu.Lock()
 	e.paused = false
 	e.pumpAll()
 	e.mu.Unlock()
+}
+
+// VBatch sets the catch-up batch size (0: unlimited) and returns the previous one.
+func (e *VerifEtcd) VBatch(k int) int {
+	e.mu.Lock()
+	defer e.mu.Unlock()
+	old := e.batch
+	e.batch = k
+	return old
+}
+
+// VTrickle lets every lagging stream have its next m catch-up batches although etcd is
+// withholding deliveries (VPause): the stream stays behind afterwards.
+func (e *VerifEtcd) VTrickle(m int) {
+	e.mu.Lock()
+	defer e.mu.Unlock()
+	for _, st := range e.streams {
+		e.deliver(st, m)
+	}
 }
 
 // VCompact compacts the history up to the current revision.
